@@ -341,6 +341,22 @@ PATH = (0, 0, 255)
 CHARS = {WALL: "#", OPEN: " ", START: "S", END: "E", PATH: "X"}
 
 
+def sync_palette() -> None:
+    """the five colours / characters are the library's published constants (no property fixes the palette itself); what is drawn where
+    is decided by this model alone. Falls back to the defaults above if the constants are missing or not pairwise distinct."""
+    global WALL, OPEN, START, END, PATH, CHARS
+    try:
+        from maze_dataset.maze.lattice_maze import AsciiChars, PixelColors
+
+        cols = [tuple(int(x) for x in getattr(PixelColors, k)) for k in ("WALL", "OPEN", "START", "END", "PATH")]
+        chs = [str(getattr(AsciiChars, k)) for k in ("WALL", "OPEN", "START", "END", "PATH")]
+        if len(set(cols)) == 5 and len(set(chs)) == 5 and all(len(c) == 3 for c in cols) and all(len(ch) == 1 for ch in chs):
+            WALL, OPEN, START, END, PATH = cols
+            CHARS = dict(zip(cols, chs))
+    except Exception:  # noqa: BLE001
+        pass
+
+
 def render(g: dict, start=None, end=None, solution=None, show_endpoints=True, show_solution=True) -> list[list[tuple]]:
     """(2r+1) x (2c+1) picture from the definition, as nested lists of rgb tuples"""
     r, c = g["r"], g["c"]
